@@ -843,7 +843,7 @@ void abtv_poll_until(int64_t abs_ns)
 #define LBITS 16
 #define LSZ (1u << LBITS)
 static struct { void *p; size_t sz; int kind; } L[LSZ];
-static long l_live, l_err, l_allocs;
+static long l_live, l_err, l_allocs, l_bytes;
 static int l_track, l_log;
 static long f_kth, f_seen;
 static int f_armed, f_fired;
@@ -869,6 +869,7 @@ static void l_add(void *p, size_t sz, int kind)
             L[i].sz = sz;
             L[i].kind = kind;
             l_live++;
+            l_bytes += (long)sz;
             l_allocs++;
             lu();
             if (l_log)
@@ -893,6 +894,7 @@ static int l_del(void *p, int kind)
         if (L[i].p == p && L[i].kind == kind) {
             L[i].p = (void *)1;
             l_live--;
+            l_bytes -= (long)L[i].sz;
             lu();
             if (l_log)
                 abtv_ev("\"e\":\"Free\",\"k\":%d,\"blk\":%u,\"known\":1", kind, i);
@@ -908,10 +910,11 @@ void abtv_ledger_reset(void)
 {
     ll();
     memset(L, 0, sizeof L);
-    l_live = l_err = l_allocs = 0;
+    l_live = l_err = l_allocs = l_bytes = 0;
     lu();
 }
 long abtv_ledger_live(void) { return l_live; }
+long abtv_ledger_bytes(void) { return l_bytes; }
 long abtv_ledger_errors(void) { return l_err; }
 long abtv_ledger_allocs(void) { return l_allocs; }
 void abtv_ledger_track(int on) { l_track = on; }
